@@ -494,7 +494,7 @@ fn run_one(c: &mut Case) {
 }
 
 pub fn run(ctx: &Ctx, evidence: Option<&PathBuf>) -> i32 {
-    ctx.run_fixed("directed", 400, run_one);
+    ctx.run_fixed("directed", ctx.dn(400), run_one);
     let n = ctx.size(30_000, 3_000_000);
     ctx.run_cases("scripts", n, run_one);
     ctx.gate("scripts_completed", 500);
